@@ -3,6 +3,7 @@
 From Coq Require Import String.
 From Coq Require Import List Permutation Sorted.
 From Verif Require Import Base Prefix.Str Prefix.Dispatch Prefix.Names Prefix.TableFacts Prefix.Gen Prefix.GenOrder.
+From Verif Require Import Prefix.GenClosure Prefix.GenCanon Prefix.GenTotal Prefix.GenFull.
 Import ListNotations.
 
 (* a call is handled by the plugin with the longest matching prefix, whatever the registration order *)
@@ -71,14 +72,13 @@ Theorem C12_new_name_has_prefix : forall fuel prefix name taken r,
 Proof. intros fuel prefix name taken r H. exact (conj (new_name_has_prefix _ _ _ _ _ H) (new_name_fresh _ _ _ _ _ H)). Qed.
 Print Assumptions C12_new_name_has_prefix.
 
-(* Generation (typesMap + the generate loop, abstract in the plugins' templates and helper requests):
-   for ANY two prefix maps whose reserved names agree suffix by suffix, with the same plugin order, the
-   emission sequence (plugin, class, name, helper names) under the second map is the first one renamed
-   plugin by plugin.  Partial with respect to the property for per-plugin overrides: an override may
-   change the plugin order (C12_plugin_prefix_order_refuted), and that the SET of emitted
-   (plugin, class) does not depend on the order is not proved here (closure of the requests; sampled by
-   the battery, which compares the sets and bodies). *)
-Theorem C12_plugin_prefix_equivariant_partial :
+(* Generation (typesMap + the generate loop, abstract in the plugins' templates and helper requests).
+   SAME plugin order, any two prefix maps whose reserved names agree suffix by suffix: the emission
+   SEQUENCE (plugin, class, name, helper names) under the second map is the first one renamed plugin by
+   plugin — the helper names too are the old suffixes on the new prefixes, and one run fails iff the other
+   does.  (Per-plugin overrides may change the order, C12_plugin_prefix_order_refuted: that case is
+   C12_plugin_prefix_equivariant below.) *)
+Theorem C12_plugin_prefix_equivariant_same_order :
   forall (T : Type) (T_eqb : T -> T -> bool) (tyname : T -> str) (requests : nat -> T -> list (nat * T)) (nfuel : nat)
          (pfx pfx' : nat -> str) (res res' : str -> bool),
   (forall k x, res' (pfx' k ++ x) = res (pfx k ++ x)) ->
@@ -87,7 +87,160 @@ Theorem C12_plugin_prefix_equivariant_partial :
   run T T_eqb tyname requests nfuel pfx' res' fuel ord (map (rn_call T pfx pfx') calls)
   = option_map (map (rn_e T pfx pfx')) (run T T_eqb tyname requests nfuel pfx res fuel ord calls).
 Proof. exact run_equivariant. Qed.
-Print Assumptions C12_plugin_prefix_equivariant_partial.
+Print Assumptions C12_plugin_prefix_equivariant_same_order.
+
+(* The generation model refines the generate-until-done work list of C01 (Gen/Worklist.v,
+   C01_loop_complete): for EVERY request relation, plugin order (containing the plugins the closure
+   mentions), prefix map and reserved set, a run that returns has emitted exactly the closure of the
+   user's calls under the request relation, each (plugin, class) exactly once. *)
+Theorem C12_generated_set_is_closure :
+  forall (T : Type) (T_eqb : T -> T -> bool), (forall a b, reflect (a = b) (T_eqb a b)) ->
+  forall (tyname : T -> str) (requests : nat -> T -> list (nat * T)) (nfuel : nat)
+         (calls : list (nat * str * T)) (pfx : nat -> str) (res : str -> bool) (ord : list nat) (fuel : nat) out,
+  (forall q, closure T requests calls q -> In (fst q) ord) ->
+  run T T_eqb tyname requests nfuel pfx res fuel ord calls = Some out ->
+  (forall q, In q (map (ekey T) out) <-> closure T requests calls q) /\ NoDup (map (ekey T) out).
+Proof. exact run_generates_closure. Qed.
+Print Assumptions C12_generated_set_is_closure.
+
+(* hence the SET of emitted (plugin, class) is independent of the order, the prefixes, the reserved names
+   and the names of the calls *)
+Theorem C12_generated_set_order_independent :
+  forall (T : Type) (T_eqb : T -> T -> bool), (forall a b, reflect (a = b) (T_eqb a b)) ->
+  forall (tyname : T -> str) (requests : nat -> T -> list (nat * T)) (nfuel : nat)
+         (pfx : nat -> str) (res : str -> bool) (pfx' : nat -> str) (res' : str -> bool) fuel fuel' ord ord'
+         (calls calls' : list (nat * str * T)) out out',
+  map (ckey T) calls = map (ckey T) calls' ->
+  (forall q, closure T requests calls q -> In (fst q) ord) ->
+  (forall q, closure T requests calls q -> In (fst q) ord') ->
+  run T T_eqb tyname requests nfuel pfx res fuel ord calls = Some out ->
+  run T T_eqb tyname requests nfuel pfx' res' fuel' ord' calls' = Some out' ->
+  Permutation (map (ekey T) out) (map (ekey T) out').
+Proof. exact run_order_independent. Qed.
+Print Assumptions C12_generated_set_order_independent.
+
+(* "the body generated for each": the output is determined by its keys and ONE naming function N (the
+   final typesMaps).  Every record is [render N key]: its name is N key, the helper names in its body
+   are N of the keys it requests (all named); N is the user's name on the user's calls, injective on
+   every plugin, and every name carries its plugin's prefix. *)
+Theorem C12_output_canonical :
+  forall (T : Type) (T_eqb : T -> T -> bool), (forall a b, reflect (a = b) (T_eqb a b)) ->
+  forall (tyname : T -> str) (requests : nat -> T -> list (nat * T)) (nfuel : nat)
+         (pfx : nat -> str) (res : str -> bool) fuel ord (calls : list (nat * str * T)) out,
+  (forall k n t, In (k, n, t) calls -> is_prefix (pfx k) n = true) ->
+  run T T_eqb tyname requests nfuel pfx res fuel ord calls = Some out ->
+  exists N : key T -> option str,
+    (forall e, In e out -> e = render T requests N (ekey T e)) /\
+    (forall e, In e out -> N (ekey T e) = Some (e_name T e)) /\
+    (forall e q, In e out -> In q (kreq T requests (ekey T e)) -> N q <> None) /\
+    (forall k n t, In (k, n, t) calls -> N (k, t) = Some n) /\
+    (forall k t t' n, N (k, t) = Some n -> N (k, t') = Some n -> t = t') /\
+    (forall k t n, N (k, t) = Some n -> is_prefix (pfx k) n = true).
+Proof. exact run_canonical. Qed.
+Print Assumptions C12_output_canonical.
+
+(* Two runs that return — ANY two plugin orders containing the closure's plugins (not even permutations of
+   each other), any two prefix maps, any reserved sets, any fuels; the second on the renamed calls —
+   emit the same functions up to order and a per-plugin renaming sigma: sigma is the prefix renaming on the
+   names the user called, injective on each plugin's names, and lands in the new prefix. *)
+Theorem C12_plugin_prefix_two_runs :
+  forall (T : Type) (T_eqb : T -> T -> bool), (forall a b, reflect (a = b) (T_eqb a b)) ->
+  forall (tyname : T -> str) (requests : nat -> T -> list (nat * T)) (nfuel : nat)
+         (pfx pfx' : nat -> str) (res res' : str -> bool) fuel fuel' ord ord' (calls : list (nat * str * T)) out out',
+  (forall q, closure T requests calls q -> In (fst q) ord) ->
+  (forall q, closure T requests calls q -> In (fst q) ord') ->
+  (forall k n t, In (k, n, t) calls -> is_prefix (pfx k) n = true) ->
+  run T T_eqb tyname requests nfuel pfx res fuel ord calls = Some out ->
+  run T T_eqb tyname requests nfuel pfx' res' fuel' ord' (map (rn_call T pfx pfx') calls) = Some out' ->
+  exists sigma : nat -> str -> str,
+    Permutation out' (map (ren T sigma) out) /\
+    (forall k n t, In (k, n, t) calls -> sigma k n = rn pfx pfx' k n) /\
+    (forall e1 e2, In e1 out -> In e2 out -> e_plugin T e1 = e_plugin T e2 ->
+       sigma (e_plugin T e1) (e_name T e1) = sigma (e_plugin T e2) (e_name T e2) -> e_name T e1 = e_name T e2) /\
+    (forall e, In e out -> is_prefix (pfx' (e_plugin T e)) (sigma (e_plugin T e) (e_name T e)) = true) /\
+    (forall q, In q (map (ekey T) out) <-> closure T requests calls q) /\ NoDup (map (ekey T) out).
+Proof. exact plugin_prefix_equivariant. Qed.
+Print Assumptions C12_plugin_prefix_two_runs.
+
+(* Nothing but fuel makes the model fail, in any order: finite universe for the closure, finite reserved
+   set, newName fuel above |universe| + |reserved| (pigeonhole on the pairwise distinct candidates), loop
+   fuel above |universe| + 1 (C01_loop_terminates), no conflicting user calls => the run returns. *)
+Theorem C12_run_succeeds :
+  forall (T : Type) (T_eqb : T -> T -> bool), (forall a b, reflect (a = b) (T_eqb a b)) ->
+  forall (tyname : T -> str) (requests : nat -> T -> list (nat * T)) (nfuel : nat)
+         (calls : list (nat * str * T)) (univ : list (key T)),
+  (forall q, closure T requests calls q -> In q univ) ->
+  forall (pfx : nat -> str) (res : str -> bool) (L : list str),
+  (forall c, res c = true -> In c L) -> length univ + length L < nfuel ->
+  forall ord fuel,
+  (forall q, closure T requests calls q -> In (fst q) ord) ->
+  S (length univ) < fuel ->
+  add_calls T T_eqb calls (init T) <> None ->
+  exists out, run T T_eqb tyname requests nfuel pfx res fuel ord calls = Some out.
+Proof. exact run_succeeds. Qed.
+Print Assumptions C12_run_succeeds.
+
+(* THE per-plugin statement.  If the default run returns [out], then for ANY prefix map pfx', ANY plugin
+   order ord' that is a permutation of the default one (sortPlugins of the overridden table: see
+   C12_table_plugin_prefix_equivariant), any finite reserved set and enough fuel (both loops are
+   unbounded in the Go code), the customised run on the renamed calls returns some [out'], and [out'] is
+   [out] up to the order of the functions, the prefix renaming of the called names and a one-to-one
+   renaming of the helper names inside each plugin's prefix; the emitted (plugin, class) are the closure
+   of the calls under the request relation, each exactly once, in both runs. *)
+Theorem C12_plugin_prefix_equivariant :
+  forall (T : Type) (T_eqb : T -> T -> bool), (forall a b, reflect (a = b) (T_eqb a b)) ->
+  forall (tyname : T -> str) (requests : nat -> T -> list (nat * T)) (nfuel : nat)
+         (pfx pfx' : nat -> str) (res res' : str -> bool) (L' : list str) fuel fuel' ord ord'
+         (calls : list (nat * str * T)) out,
+  Permutation ord ord' ->
+  (forall q, closure T requests calls q -> In (fst q) ord) ->
+  (forall k n t, In (k, n, t) calls -> is_prefix (pfx k) n = true) ->
+  (forall c, res' c = true -> In c L') -> length out + length L' < nfuel -> S (length out) < fuel' ->
+  run T T_eqb tyname requests nfuel pfx res fuel ord calls = Some out ->
+  exists out',
+    run T T_eqb tyname requests nfuel pfx' res' fuel' ord' (map (rn_call T pfx pfx') calls) = Some out' /\
+    (exists sigma : nat -> str -> str,
+       Permutation out' (map (ren T sigma) out) /\
+       (forall k n t, In (k, n, t) calls -> sigma k n = rn pfx pfx' k n) /\
+       (forall e1 e2, In e1 out -> In e2 out -> e_plugin T e1 = e_plugin T e2 ->
+          sigma (e_plugin T e1) (e_name T e1) = sigma (e_plugin T e2) (e_name T e2) -> e_name T e1 = e_name T e2) /\
+       (forall e, In e out -> is_prefix (pfx' (e_plugin T e)) (sigma (e_plugin T e) (e_name T e)) = true)) /\
+    (forall q, In q (map (ekey T) out) <-> closure T requests calls q) /\ NoDup (map (ekey T) out) /\
+    Permutation (map (ekey T) out') (map (ekey T) out).
+Proof. exact plugin_prefix_equivariant_full. Qed.
+Print Assumptions C12_plugin_prefix_equivariant.
+
+(* ... with the orders and prefixes induced by a plugin table [ps] (distinct plugin names) and by ANY
+   transformation of it that keeps the plugin names — in particular [effective global overrides] for every
+   -prefix and -pluginprefix: the plugin order is sortPlugins of the transformed table. *)
+Theorem C12_table_plugin_prefix_equivariant :
+  forall (T : Type) (T_eqb : T -> T -> bool), (forall a b, reflect (a = b) (T_eqb a b)) ->
+  forall (tyname : T -> str) (requests : nat -> T -> list (nat * T)) (nfuel : nat)
+         (ps : list plugin) (f : plugin -> plugin) (res res' : str -> bool) (L' : list str) fuel fuel'
+         (calls : list (nat * str * T)) out,
+  (forall a, pname (f a) = pname a) ->
+  NoDup (map pname ps) ->
+  (forall q, closure T requests calls q -> fst q < length ps) ->
+  (forall k n t, In (k, n, t) calls -> is_prefix (pfx_of ps k) n = true) ->
+  (forall c, res' c = true -> In c L') -> length out + length L' < nfuel -> S (length out) < fuel' ->
+  run T T_eqb tyname requests nfuel (pfx_of ps) res fuel (order ps) calls = Some out ->
+  exists out',
+    run T T_eqb tyname requests nfuel (pfx_of (map f ps)) res' fuel' (order (map f ps))
+        (map (rn_call T (pfx_of ps) (pfx_of (map f ps))) calls) = Some out' /\
+    renamed_output T (pfx_of ps) (pfx_of (map f ps)) calls out out' /\
+    (forall q, In q (map (ekey T) out) <-> closure T requests calls q) /\ NoDup (map (ekey T) out) /\
+    Permutation (map (ekey T) out') (map (ekey T) out).
+Proof. exact table_plugin_prefix_equivariant. Qed.
+Print Assumptions C12_table_plugin_prefix_equivariant.
+
+Theorem C12_effective_keeps_names : forall global ovs a, pname (effective global ovs a) = pname a.
+Proof. exact effective_pname. Qed.
+Print Assumptions C12_effective_keeps_names.
+
+Theorem C12_order_is_permutation : forall (f : plugin -> plugin) ps,
+  (forall a, pname (f a) = pname a) -> Permutation (order ps) (order (map f ps)).
+Proof. exact order_map_perm. Qed.
+Print Assumptions C12_order_is_permutation.
 
 (* Global -prefix: the order is the same, so the whole output is the default output renamed; and on
    every generated name the renaming is the single substitution h… |-> p… *)
